@@ -87,6 +87,12 @@ CHECKS = {
             "retrieves walk of input vs returned model on the implementation.  The two false halves (equal float beyond 2^53, member collision) are refuted in Coq and "
             "recorded as findings.",
             "partial (per-element lemmas + refutations; the recursive composition is correspondence + oracle)"),
+    "C07": ("Coq theorem by case analysis over every branch of parse_element (the returned element carries the schema's default, all shapes, all default values) + signature obligations regenerated from /repo + default x shape x position oracle through parser, both serializers and the executed module + parse-tree correspondence",
+            "C07_parsed_default is proved for every schema object, parse state and default value on the parser model (which includes the branches repaired by fixes "
+            "804a592/773e603); C07_default_in_every_signature is the premise on the code.  The serializer halves and 'not moved/shared' are decided by the oracle: 20 "
+            "default values x 23 shapes x 8 positions, type-strict comparison on the parsed element, on every other element of the tree, in serialize_json and in the "
+            "executed serialize_python output; descriptions through class description, JSON and executed docstring (finding K4 for quote/backslash descriptions).",
+            "parser half proved; serializers and docstring by oracle (docstring lexing is Python's own)"),
 }
 
 REASONS_PENDING = "check under construction in this session: not yet claimed"
